@@ -24,7 +24,7 @@ TRUSTED_BASE = [
     "translator tools/gen_formulas.py: the arithmetic of the named source functions (an expression, or a whole body of assignments, if and return) as Python's own `ast` parses it -> Lean terms over the carrier class in lean/FormulaTie/Gen*.lean; that each is the model's definition is re-checked by `rfl` / a short unfolding on every run (lean/FormulaTie/*.lean)",
 ]
 FORMULA_TIE = ('Spline',)
-ASSUMPTIONS = ["strictly increasing knots, positive conductivities (1e-6 .. 1e6), positive minimum transmissivity",
+ASSUMPTIONS = ["strictly increasing knots, positive conductivities (1e-14 .. 1e6), positive minimum transmissivity",
                "levels at or below the highest knot (above it the code raises NotImplementedError, outside the property)"]
 RULE = ("knot sets of 2-8 knots with conductivities over 12 orders of magnitude x levels below/at the lowest knot, on "
         "knots, between knots, at the highest knot, a quarter of the sets with two adjacent conductivities equal to "
@@ -80,9 +80,20 @@ def run(ctx):
             if ctx.rng.random() < 0.5 and len(ks) > 2:
                 ks[i], ks[i + 1] = ks[i] * 1e3, ks[i + 1] * 1e3        # a conductive layer among tight ones
         tmin = 10 ** ctx.rng.uniform(-3, 3)
+        tight = False
+        if not near_tie and ctx.rng.random() < 0.15:
+            # a whole profile of tight material, or one stated in other units than the tool expects (m/s typed where
+            # km/d is meant): every conductivity many orders of magnitude below one, the minimum likewise -- what is
+            # "small" must be judged relative to the values themselves, never against an absolute number
+            tight = True
+            scale_ = 10 ** ctx.rng.uniform(-14, -7)
+            ks = [float(k) * scale_ / max(ks) * 10 ** ctx.rng.uniform(0, 1) for k in ks]
+            ctx.count("sets_with_all_conductivities_below_1e-6")
+        if tight:
+            tmin = min(ks) * 10 ** ctx.rng.uniform(-2, 1)
         if near_tie:
             tmin = 10 ** ctx.rng.uniform(-6, -1)
-        if ctx.rng.random() < 0.3:
+        if ctx.rng.random() < 0.3 and not tight:
             tmin = ctx.rng.randint(1, 50)      # as typed in a parameter file: `minimum_transmissivity_m2_d: 7`
         tmin_arg = tmin
         if ctx.rng.random() < 0.25:
@@ -107,9 +118,10 @@ def run(ctx):
         try:
             scal = [float(T(z)) for z in levels]
             la = common.any_layout(ctx.rng, np.array(levels))
+            snap_la = common.snapshot(la)
             arr = [float(v) for v in T(la)]
             err = None
-            if not common.same_as_snapshot(la, np.array(levels)):
+            if not common.same_as_snapshot(la, snap_la):
                 err = "the caller's array of levels was modified by the evaluation"
         except Exception as e:  # noqa
             scal, err = None, "%s: %s" % (type(e).__name__, e)
